@@ -195,6 +195,11 @@ def Outcome.err : Outcome → Err
   | .torn _ => .torn
   | _ => .io
 
+/-- error of a failed `create` (a "partial create" does not exist: plain I/O error) -/
+def Outcome.createErr : Outcome → Err
+  | .diskFull => .full
+  | _ => .io
+
 /-- one recorded I/O call (what the harness-side `WalStore` logs) -/
 inductive Call where
   | create (seq : Nat) (ok : Bool)
@@ -223,7 +228,7 @@ def World.push (w : World) (st : Store) (c : Call) : World :=
 def ioCreate (φ : Nat → Outcome) (w : World) (seq : Nat) : World × Option Err :=
   match φ w.io with
   | .ok => (w.push (NMap.insert seq ⟨[], 0⟩ w.store) (.create seq true), none)
-  | o => (w.push w.store (.create seq false), some o.err)
+  | o => (w.push w.store (.create seq false), some o.createErr)
 
 def appendData (st : Store) (seq : Nat) (bs : Bytes) : Store :=
   match NMap.get st seq with
@@ -256,10 +261,16 @@ def crashImage (st : Store) : Image := st.map (fun p => (p.1, p.2.data.take p.2.
 def fullImage (st : Store) : Image := st.map (fun p => (p.1, p.2.data))
 
 /-- `WalRotator` (store handle replaced by the `World`).
-    `syncBeforeDrop` selects the code variant: `false` = the pinned tree (`rotate()` drops the
-    writer unsynced; an append error drops it too and `sync()` then returns `Ok`);
-    `true` = the repaired tree (`rotate()` fsyncs the old writer before dropping it, a failed
-    closing fsync or a failed append poisons the next `sync()`). -/
+    `syncBeforeDrop` (`fix`) selects the code variant:
+    * `false` = the pinned tree: `rotate()` drops the writer unsynced; an append error drops it
+      too; `sync()` covers only the current writer and returns `Ok` when there is none.
+    * `true` = the repaired tree: `rotate()` fsyncs the old writer before dropping it; a failed
+      closing fsync or a failed append POISONS the rotator, and the next `sync()` then reports
+      `Err` (once) instead of syncing, so the waiting acks fail.
+    `poisoned` is real state of the repaired code; in the pinned variant it is a GHOST with the
+    same meaning ("a writer was dropped without a successful fsync since the last `sync()`"),
+    which no result of the pinned variant depends on — it only lets the partial theorem name
+    the runs on which the pinned code is safe. -/
 structure Rot where
   w : World
   maxSize : Nat
@@ -277,15 +288,20 @@ def Rot.curSize (r : Rot) (c : Nat) : Nat :=
   | none => 0
   | some f => f.data.length
 
-/-- `WalRotator::rotate` -/
-def Rot.rotate (fix : Bool) (φ : Nat → Outcome) (r : Rot) : Rot × Option Err :=
-  -- close the current writer
-  let r1 : Rot :=
-    match r.cur, fix with
-    | some c, true =>
+/-- "close current writer" at the start of `rotate()` -/
+def Rot.close (fix : Bool) (φ : Nat → Outcome) (r : Rot) : Rot :=
+  match r.cur with
+  | none => r
+  | some c =>
+    if fix then
       let (w', ok) := ioSync φ r.w c
       { r with w := w', cur := none, poisoned := r.poisoned || !ok }
-    | _, _ => { r with cur := none }
+    else
+      { r with cur := none, poisoned := true }
+
+/-- `WalRotator::rotate` -/
+def Rot.rotate (fix : Bool) (φ : Nat → Outcome) (r : Rot) : Rot × Option Err :=
+  let r1 := Rot.close fix φ r
   let r2 := { r1 with seq := r1.seq + 1 }
   match ioCreate φ r2.w r2.seq with
   | (w', some e) => ({ r2 with w := w' }, some e)
@@ -294,32 +310,38 @@ def Rot.rotate (fix : Bool) (φ : Nat → Outcome) (r : Rot) : Rot × Option Err
     | (w'', some e) => ({ r2 with w := w'' }, some e)
     | (w'', none) => ({ r2 with w := w'', cur := some r2.seq }, none)
 
+/-- `needs_new_file` -/
+def Rot.needsNew (r : Rot) : Bool :=
+  match r.cur with
+  | none => true
+  | some c => decide (r.maxSize ≤ r.curSize c)
+
+/-- second half of `WalRotator::append`: `writer.append_entry(entry)` on the current writer -/
+def Rot.appendTo (φ : Nat → Outcome) (r1 : Rot) (e : Entry) : Rot × Option Err :=
+  match r1.cur with
+  | none => (r1, some .io)   -- unreachable (`expect("current_writer must exist after rotate")`)
+  | some c =>
+    match ioAppend φ r1.w c e.encode with
+    | (w', none) => ({ r1 with w := w' }, none)
+    | (w', some x) => ({ r1 with w := w', cur := none, poisoned := true }, some x)
+
 /-- `WalRotator::append` -/
 def Rot.append (fix : Bool) (φ : Nat → Outcome) (r : Rot) (e : Entry) : Rot × Option Err :=
-  let needsNew : Bool :=
-    match r.cur with
-    | none => true
-    | some c => decide (r.maxSize ≤ r.curSize c)
-  let (r1, err) := if needsNew then Rot.rotate fix φ r else (r, none)
-  match err with
-  | some x => (r1, some x)
-  | none =>
-    match r1.cur with
-    | none => (r1, some .io)   -- unreachable (`expect("current_writer must exist after rotate")`)
-    | some c =>
-      match ioAppend φ r1.w c e.encode with
-      | (w', none) => ({ r1 with w := w' }, none)
-      | (w', some x) => ({ r1 with w := w', cur := none, poisoned := r1.poisoned || fix }, some x)
+  if r.needsNew then
+    match Rot.rotate fix φ r with
+    | (r1, some x) => (r1, some x)       -- `self.rotate()?`
+    | (r1, none) => Rot.appendTo φ r1 e
+  else Rot.appendTo φ r e
 
 /-- `WalRotator::sync` -/
 def Rot.sync (fix : Bool) (φ : Nat → Outcome) (r : Rot) : Rot × Bool :=
   if fix && r.poisoned then ({ r with poisoned := false }, false)
   else
     match r.cur with
-    | none => (r, true)
+    | none => ({ r with poisoned := false }, true)
     | some c =>
       let (w', ok) := ioSync φ r.w c
-      ({ r with w := w' }, ok)
+      ({ r with w := w', poisoned := false }, ok)
 
 end Wal
 end RedisVerif
